@@ -48,6 +48,8 @@ def e1(ctx):
     # who builds '"' + x + '"'
     builders = []
     for fi in ctx.P.all_funcs():
+        if ctx.absorbed(fi):
+            continue
         for n in walk_local(fi.node):
             if isinstance(n, ast.BinOp) and isinstance(n.op, ast.Add):
                 if any(isinstance(s, ast.Constant) and s.value == '"' for s in (n.left, n.right)):
@@ -61,6 +63,8 @@ def e1(ctx):
                       "quoted strings are also built in %s: an ETag can be produced outside create_strong_etag" % [b for b in bset if not b.endswith("create_strong_etag")]))
     sites = []
     for fi in ctx.P.all_funcs():
+        if ctx.absorbed(fi):
+            continue
         cfg = None
         for n in walk_local(fi.node):
             if isinstance(n, ast.Call) and (dotted(n.func) or "").split(".")[-1] == "create_strong_etag":
@@ -160,51 +164,92 @@ def e2(ctx):
            "stores; vdir hashes every chunk of the file and nothing else")
 def e3(ctx):
     obs = []
+    from ..dataflow import value_roots, depends_on
+
+    def blob_roots(cfg, du, node, e):
+        """The Blob object(s) whose .id *e* is, as sets of origin call sites; None if *e* is not `<blob>.id`."""
+        keys = set()
+        roots = value_roots(du, node, e, conv=("decode",))
+        if not roots:
+            return None
+        for o in roots:
+            v = o.leaf
+            if not (o.kind == "expr" and not o.path and isinstance(v, ast.Attribute) and v.attr == "id"):
+                return None
+            bo = origins(du, o.node, v.value)
+            if not bo or not all(b.kind == "expr" and not b.path and isinstance(b.leaf, ast.Call) and "Blob" in (dotted(b.leaf.func) or "") for b in bo):
+                return None
+            keys |= {id(b.leaf) for b in bo}
+        return keys
+
+    def same_blob(cfg, du, node, e, keys) -> bool:
+        bo = origins(du, node, e)
+        return bool(bo) and all(b.kind == "expr" and isinstance(b.leaf, ast.Call) and id(b.leaf) in keys for b in bo)
+
+    def holds_data(cfg, du, keys, p_data) -> bool:
+        """The blob is built from the `data` parameter: Blob.from_string(<data>) or `<blob>.chunked = data`."""
+        for n in cfg.stmt_nodes():
+            for e in n.exprs():
+                for x in ast.walk(e):
+                    if isinstance(x, ast.Call) and id(x) in keys and p_data in depends_on(du, n, x):
+                        return True
+            if n.kind == "stmt" and isinstance(n.ast, ast.Assign):
+                for t in n.ast.targets:
+                    if isinstance(t, ast.Attribute) and t.attr in ("chunked", "data") and same_blob(cfg, du, n, t.value, keys) \
+                            and p_data in depends_on(du, n, n.ast.value):
+                        return True
+        return False
+
+    def entered(cfg, du, keys) -> bool:
+        """A tree / index entry is assigned a value containing `<that blob>.id`."""
+        for n in cfg.stmt_nodes():
+            if n.kind == "stmt" and isinstance(n.ast, ast.Assign) and any(isinstance(t, ast.Subscript) for t in n.ast.targets):
+                for x in ast.walk(n.ast.value):
+                    if isinstance(x, ast.Attribute) and x.attr == "id" and same_blob(cfg, du, n, x.value, keys):
+                        return True
+        return False
+
     bare = ctx.own_method("xandikos.store.git.BareGitStore", "_import_one")
     cfg = ctx.cfg(bare)
     du = DefUse(cfg)
+    p_data = bare.params[2] if len(bare.params) > 2 else "data"
     for r in [n for n in cfg.nodes if n.kind == "return"]:
         v = r.ast.value
-        bv = dotted(v.value) if isinstance(v, ast.Attribute) and v.attr == "id" else None
+        keys = blob_roots(cfg, du, r, v) if v is not None else None
         ok = False
-        if bv:
-            # blob data = the data parameter; tree entry uses the same blob id; blob is added
-            data_ok = any(n.kind == "stmt" and isinstance(n.ast, ast.Assign) and dotted(n.ast.targets[0]) in (bv + ".chunked", bv + ".data")
-                          and isinstance(n.ast.value, ast.Name) and n.ast.value.id == "data" for n in cfg.stmt_nodes()) or \
-                any(d.value is not None and "data" in {x.id for x in ast.walk(d.value) if isinstance(x, ast.Name)} and "Blob" in src(d.value) for d in du.reaching(r, bv))
-            entry_ok = any(n.kind == "stmt" and isinstance(n.ast, ast.Assign) and isinstance(n.ast.targets[0], ast.Subscript) and (bv + ".id") in src(n.ast.value)
-                           for n in cfg.stmt_nodes())
-            added = any((dotted(c.func) or "").endswith(("add_objects", "add_object")) and bv in {x.id for x in ast.walk(c) if isinstance(x, ast.Name)}
+        if keys:
+            added = any((dotted(c.func) or "").endswith(("add_objects", "add_object"))
+                        and any(isinstance(x, ast.Name) and same_blob(cfg, du, n, x, keys) for x in ast.walk(c))
                         for n in cfg.stmt_nodes() for c in n.calls())
-            ok = data_ok and entry_ok and added
+            ok = holds_data(cfg, du, keys, p_data) and entered(cfg, du, keys) and added
         obs.append(ctx.ob(ok, bare.qualname, where(bare, r), "returns the id of the blob that holds `data` and enters the tree",
-                          "return %s.id; same blob is stored and referenced" % bv,
+                          "return <blob>.id; same blob is stored and referenced",
                           "the etag returned (`%s`) is not the id of the blob built from `data`, stored, and referenced by the new tree entry" % src(v)))
     tree = ctx.own_method("xandikos.store.git.TreeGitStore", "_import_one")
     cfg = ctx.cfg(tree)
     du = DefUse(cfg)
+    p_data = tree.params[2] if len(tree.params) > 2 else "data"
     for r in [n for n in cfg.nodes if n.kind == "return"]:
         v = r.ast.value
-        bv = dotted(v.value) if isinstance(v, ast.Attribute) and v.attr == "id" else None
-        ok = False
-        if bv:
-            ok = all(d.value is not None and "Blob" in src(d.value) and "data" in {x.id for x in ast.walk(d.value) if isinstance(x, ast.Name)} for d in du.reaching(r, bv)) \
-                and bool(du.reaching(r, bv)) \
-                and any(n.kind == "stmt" and isinstance(n.ast, ast.Assign) and isinstance(n.ast.targets[0], ast.Subscript) and (bv + ".id") in src(n.ast.value) for n in cfg.stmt_nodes())
+        keys = blob_roots(cfg, du, r, v) if v is not None else None
+        ok = bool(keys) and holds_data(cfg, du, keys, p_data) and entered(cfg, du, keys)
         obs.append(ctx.ob(ok, tree.qualname, where(tree, r), "returns the id of the blob built from `data` and recorded in the index",
-                          "return %s.id" % bv, "the etag returned (`%s`) is not the id of the blob built from `data` that the index records" % src(v)))
+                          "return <blob>.id", "the etag returned (`%s`) is not the id of the blob built from `data` that the index records" % src(v)))
     imp = ctx.own_method("xandikos.store.git.GitStore", "import_one")
     cfg = ctx.cfg(imp)
     du = DefUse(cfg)
     for r in [n for n in cfg.nodes if n.kind == "return"]:
         v = r.ast.value
         ok = False
-        if isinstance(v, ast.Tuple) and len(v.elts) == 2:
-            names = [x.id for x in ast.walk(v.elts[1]) if isinstance(x, ast.Name)]
-            for nm in names:
-                for d in du.reaching(r, nm):
-                    if d.value is not None and _is_call_to(d.value, {"_import_one"}):
-                        ok = True
+        if v is not None:
+            roots = value_roots(du, r, v, conv=("decode",))
+            # (name, etag): component 1 of the returned pair is what _import_one returned
+            comp = [o for o in roots]
+            if isinstance(v, ast.Tuple) and len(v.elts) == 2:
+                comp = value_roots(du, r, v.elts[1], conv=("decode",))
+            elif roots and all(o.kind == "expr" and isinstance(o.leaf, ast.Tuple) and len(o.leaf.elts) == 2 and not o.path for o in roots):
+                comp = [x for o in roots for x in value_roots(du, o.node, o.leaf.elts[1], conv=("decode",))]
+            ok = bool(comp) and all(o.kind == "expr" and not o.path and _is_call_to(o.leaf, {"_import_one"}) for o in comp)
         obs.append(ctx.ob(ok, imp.qualname, where(imp, r), "import_one returns the etag _import_one computed", "etag <- self._import_one(...)",
                           "GitStore.import_one returns `%s`, not the id _import_one computed for the stored bytes" % src(v)))
     ge = ctx.own_method("xandikos.store.vdir.VdirStore", "_get_etag")
